@@ -206,6 +206,9 @@ pub fn observe(tx: &TransactionData<Authorized>, name: &str, i: usize) -> Obs {
 }
 
 fn show(b: &[u8]) -> String {
+    if b.len() >= 2 && b.len() <= 40 && b.iter().all(|c| c.is_ascii_alphanumeric() || *c == b'_') {
+        return String::from_utf8_lossy(b).into_owned(); // names (version, branch, bundle version)
+    }
     if b.len() <= 40 { hex::encode(b) } else { format!("{}..({} bytes)", hex::encode(&b[..32]), b.len()) }
 }
 
